@@ -27,6 +27,11 @@ class ContentProtection(Descriptor):
         if ValidationFlag.CONTENT_PROTECTION not in self.options.verify:
             self.progress.inc()
             return
+        if not self.attrs.check_not_none(
+                self.schemeIdUri, msg='ContentProtection@schemeIdUri is mandatory',
+                clause='5.8.2'):
+            self.progress.inc()
+            return
         if self.schemeIdUri == "urn:mpeg:dash:mp4protection:2011":
             self.attrs.check_equal(
                 self.value, "cenc", template=r'{0} != {1}')
